@@ -180,7 +180,11 @@ def check_file(ctx, data, bs, scratch, roundtrip=True, tag="", other=None):
             ctx.violation("fai-file-content", f"{fai_txt!r} expected {want_fai!r}", case)
             return
         f2 = FastaIndex(p, bs)
-        f2.auto_load()
+        try:
+            f2.auto_load()
+        except Exception as e:  # noqa: BLE001 - the cache the tool has just written must be readable by the tool
+            ctx.violation(f"reloading-own-cache-raised-{type(e).__name__}", f"second auto_load() (from the cache files): {type(e).__name__}: {e}", case)
+            return
         a1 = [[s.name, [dump_row(r) for r in s.rows]] for s in f1.assembly.scaffolds]
         a2 = [[s.name, [dump_row(r) for r in s.rows]] for s in f2.assembly.scaffolds]
         i2 = [(n, i.length, i.file_offset, i.residues_per_line, i.max_line_length) for n, i in f2.index.items()]
@@ -201,7 +205,11 @@ def check_file(ctx, data, bs, scratch, roundtrip=True, tag="", other=None):
                 for q in (p, Path(str(p) + ".fai"), Path(str(p) + ".agp")):
                     os.utime(q, ns=(mt, mt))
                 f3 = FastaIndex(p, bs)
-                f3.auto_load()
+                try:
+                    f3.auto_load()
+                except Exception as e:  # noqa: BLE001
+                    ctx.violation(f"auto-load-raised-{type(e).__name__}", f"auto_load() after the file was replaced: {type(e).__name__}: {e}", {**case, "other": base64.b64encode(other).decode()})
+                    return
                 i3 = [(n, i.length, i.file_offset, i.residues_per_line, i.max_line_length) for n, i in f3.index.items()]
                 exp3 = [tuple(fasta_ref.quintuple(r)) for r in recs2]
                 _close(f3)
